@@ -1,7 +1,7 @@
 (* C17 -- proofs about the option-guard model Gen/OptGuard.v, instantiated with the regenerated
    filter, template-loop facts and documented domains of Generated/Gen_OptGuard.v. *)
 From Verif Require Import Str Crc32 Crc32Thm OptGuard Gen_OptGuard.
-From Coq Require Import ZArith Lia.
+From Coq Require Import ZArith Lia Permutation Sorted.
 Open Scope N_scope.
 
 (* ---------------------------------------------------------------------------------------- *)
@@ -31,6 +31,96 @@ Proof.
   destruct (str_eqb_spec k k') as [->|Hne]; intros H.
   - left; congruence.
   - right; auto.
+Qed.
+
+(* ---------------------------------------------------------------------------------------- *)
+(* sorting key lists: two duplicate-free lists with the same elements sort to the same list   *)
+(* ---------------------------------------------------------------------------------------- *)
+Lemma list_str_eqb_true a b : list_str_eqb a b = true <-> a = b.
+Proof.
+  revert b; induction a as [|x a IH]; intros [|y b]; cbn; try (split; [discriminate | congruence]); [tauto|].
+  rewrite andb_true_iff, str_eqb_true, IH. split; [intros [-> ->]; reflexivity | intros E; injection E; auto].
+Qed.
+
+Lemma str_leb_total : forall a b, str_leb a b = true \/ str_leb b a = true.
+Proof.
+  induction a as [|x a IH]; intros [|y b]; cbn; auto.
+  destruct (N.ltb_spec x y), (N.ltb_spec y x); auto; try lia.
+Qed.
+
+Lemma str_leb_refl a : str_leb a a = true.
+Proof. destruct (str_leb_total a a); assumption. Qed.
+
+Lemma str_leb_antisym : forall a b, str_leb a b = true -> str_leb b a = true -> a = b.
+Proof.
+  induction a as [|x a IH]; intros [|y b]; cbn; intros H1 H2; try discriminate; [reflexivity|].
+  destruct (N.ltb_spec x y), (N.ltb_spec y x); try discriminate; try lia.
+  f_equal; [lia | auto].
+Qed.
+
+Lemma str_leb_trans : forall a b c, str_leb a b = true -> str_leb b c = true -> str_leb a c = true.
+Proof.
+  induction a as [|x a IH]; intros [|y b] [|z c]; cbn; intros H1 H2; try discriminate; auto.
+  destruct (N.ltb_spec x y), (N.ltb_spec y x); try discriminate; try lia;
+    destruct (N.ltb_spec y z), (N.ltb_spec z y); try discriminate; try lia;
+    destruct (N.ltb_spec x z), (N.ltb_spec z x); try discriminate; try lia; auto.
+  eapply IH; eauto.
+Qed.
+
+Definition sorted (l : list str) : Prop := StronglySorted (fun a b => str_leb a b = true) l.
+
+Lemma insert_perm x l : Permutation (x :: l) (insert_str x l).
+Proof.
+  induction l as [|y l IH]; cbn; [reflexivity|]. destruct (str_leb x y); [reflexivity|].
+  transitivity (y :: x :: l); [apply perm_swap | apply perm_skip, IH].
+Qed.
+
+Lemma isort_perm l : Permutation l (isort l).
+Proof.
+  induction l as [|x l IH]; cbn; [constructor|].
+  transitivity (x :: isort l); [apply perm_skip, IH | apply insert_perm].
+Qed.
+
+Lemma insert_sorted x l : sorted l -> sorted (insert_str x l).
+Proof.
+  unfold sorted. induction l as [|y l IH]; cbn; intros H; [repeat constructor|].
+  inversion H as [|? ? Hs Hf]; subst. destruct (str_leb x y) eqn:E.
+  - constructor; [assumption|]. constructor; [assumption|].
+    eapply Forall_impl; [|exact Hf]. intros z Hz. eapply str_leb_trans; eassumption.
+  - constructor; [apply IH; assumption|].
+    apply (Permutation_Forall (insert_perm x l)). constructor; [|assumption].
+    destruct (str_leb_total x y) as [T|T]; [congruence | assumption].
+Qed.
+
+Lemma isort_sorted l : sorted (isort l).
+Proof. induction l as [|x l IH]; cbn; [constructor | apply insert_sorted, IH]. Qed.
+
+Lemma sorted_perm_eq l1 : forall l2, sorted l1 -> sorted l2 -> Permutation l1 l2 -> l1 = l2.
+Proof.
+  unfold sorted. induction l1 as [|x l1 IH]; intros l2 H1 H2 P.
+  - apply Permutation_nil in P. congruence.
+  - destruct l2 as [|y l2]; [apply Permutation_sym, Permutation_nil in P; discriminate|].
+    inversion H1 as [|? ? Hs1 Hf1]; inversion H2 as [|? ? Hs2 Hf2]; subst.
+    assert (x = y) as <-.
+    { apply str_leb_antisym.
+      - assert (Hin : In y (x :: l1)) by (apply (Permutation_in _ (Permutation_sym P)); left; reflexivity).
+        destruct Hin as [->|Hin]; [apply str_leb_refl|]. rewrite Forall_forall in Hf1. auto.
+      - assert (Hin : In x (y :: l2)) by (apply (Permutation_in _ P); left; reflexivity).
+        destruct Hin as [->|Hin]; [apply str_leb_refl|]. rewrite Forall_forall in Hf2. auto. }
+    f_equal. apply IH; [assumption | assumption|]. eapply Permutation_cons_inv; eassumption.
+Qed.
+
+Lemma isort_perm_eq l1 l2 : Permutation l1 l2 -> isort l1 = isort l2.
+Proof.
+  intros P. apply sorted_perm_eq; [apply isort_sorted | apply isort_sorted|].
+  transitivity l1; [apply Permutation_sym, isort_perm|]. transitivity l2; [assumption | apply isort_perm].
+Qed.
+
+Lemma isort_eq_In l1 l2 : isort l1 = isort l2 -> forall k, In k l1 <-> In k l2.
+Proof.
+  intros E k. split; intros H.
+  - apply (Permutation_in _ (Permutation_sym (isort_perm l2))). rewrite <- E. apply (Permutation_in _ (isort_perm l1)). assumption.
+  - apply (Permutation_in _ (Permutation_sym (isort_perm l1))). rewrite E. apply (Permutation_in _ (isort_perm l2)). assumption.
 Qed.
 
 (* ---------------------------------------------------------------------------------------- *)
@@ -289,6 +379,87 @@ Section Generic.
         + apply (in_map (fun kv => ((sd_name typ, fst kv), savz (snd kv))) _ _ Hit).
         + unfold check_one; cbn. rewrite (proj2 (lookup_table_None (sd_name typ) o_s k) Hnot). left; reflexivity.
     Qed.
+    (* ---- with the key-set fingerprint (tree with the F-OPTGUARD-KEYSET fix) ---- *)
+    Variable kss : list (list str).
+
+    Lemma keysets_ok_inj a b :
+      keysets_ok sav kss = true -> In a (map isort kss) -> In b (map isort kss) ->
+      (exists z, sav (VStr (join_comma a)) = Some z) /\
+      (sav (VStr (join_comma a)) = sav (VStr (join_comma b)) -> a = b).
+    Proof.
+      unfold keysets_ok. rewrite forallb_forall. intros H Ha Hb. specialize (H a Ha).
+      destruct (sav (VStr (join_comma a))) as [z|] eqn:Ea; [|discriminate]. split; [eexists; reflexivity|].
+      rewrite forallb_forall in H. specialize (H b Hb). intros E. apply orb_prop in H as [H|H].
+      - apply list_str_eqb_true; assumption.
+      - rewrite <- E, Z.eqb_refl in H. discriminate.
+    Qed.
+
+    Lemma keys_documented_In o : keys_documentedb kss o = true -> In (isort (map fst o)) (map isort kss).
+    Proof.
+      unfold keys_documentedb. rewrite existsb_exists. intros (x & Hx & E). apply list_str_eqb_true in E. congruence.
+    Qed.
+
+    Lemma nodup_keys_functional (o : opts) k v v' : NoDup (map fst o) -> In (k, v) o -> In (k, v') o -> v = v'.
+    Proof.
+      induction o as [|[k0 v0] o IH]; cbn; intros Hn H1 H2; [contradiction|].
+      inversion Hn as [|? ? Hnot Hn']; subst.
+      destruct H1 as [E1|H1], H2 as [E2|H2]; try congruence.
+      - exfalso. injection E1 as <- <-. apply Hnot. apply (in_map fst) in H2. exact H2.
+      - exfalso. injection E2 as <- <-. apply Hnot. apply (in_map fst) in H1. exact H1.
+      - auto.
+    Qed.
+
+    Lemma subset_compile_nil o_s o_t :
+      NoDup (map fst o_s) -> (forall kv, In kv o_t -> In kv o_s) ->
+      flat_map (check_one (table (sd_name typ) o_s)) (table (sd_name typ) o_t) = [].
+    Proof.
+      intros Hn Hsub. apply flat_map_nil. intros [[nm k] z] Hin. apply in_map_iff in Hin as ([k' v] & E & Hin).
+      injection E as <- <- <-. apply check_one_nil. apply lookup_table_nodup; [assumption | apply Hsub; assumption].
+    Qed.
+
+    Theorem guard_full_general o_s o_t :
+      keyset_guarded sup typ = true -> keysets_ok sav kss = true ->
+      in_domainb dom o_s = true -> in_domainb dom o_t = true ->
+      keys_documentedb kss o_s = true -> keys_documentedb kss o_t = true ->
+      nodupb (map fst o_s) = true -> nodupb (map fst o_t) = true ->
+      (compiles_together_full sav sup typ o_s o_t = true <-> (forall kv, In kv o_s <-> In kv o_t)).
+    Proof.
+      intros Hg Hk Hs Ht Ds Dt Ns Nt. apply nodupb_NoDup in Ns. apply nodupb_NoDup in Nt.
+      pose proof (keys_documented_In _ Ds) as Is. pose proof (keys_documented_In _ Dt) as It.
+      destruct (keysets_ok_inj _ _ Hk Is It) as [(zs & Es) Inj].
+      destruct (keysets_ok_inj _ _ Hk It Is) as [(zt & Et) _].
+      unfold keyset_guarded in Hg.
+      destruct (sd_keyset sup) as [ns|] eqn:Ks; [|discriminate]. destruct (sd_keyset typ) as [nt|] eqn:Kt; [|discriminate].
+      assert (Ekd : keyset_diags sav sup typ o_s o_t = Some (if Z.eqb zs zt then [] else [KeySetMismatch])).
+      { unfold keyset_diags, keyfp, keyset_text. rewrite Kt, Ks, Hg, Es, Et. reflexivity. }
+      unfold compiles_together_full, compile_full. rewrite Ekd, (compile_defined _ _ Hs Ht). split.
+      - intros Hc. destruct (Z.eqb_spec zs zt) as [Ez|Ez]; [|discriminate]. cbn [app] in Hc.
+        destruct (flat_map _ _) eqn:Ef; [|discriminate].
+        assert (Hsub : forall kv, In kv o_t -> In kv o_s).
+        { apply accept_implies_subset_general; [assumption | assumption|].
+          unfold compiles_together. rewrite (compile_defined _ _ Hs Ht), Ef. reflexivity. }
+        assert (Ekeys : isort (map fst o_s) = isort (map fst o_t)) by (apply Inj; congruence).
+        intros [k v]. split; [|apply Hsub]. intros Hin.
+        assert (Hk' : In k (map fst o_t)) by (apply (isort_eq_In _ _ Ekeys); apply (in_map fst) in Hin; exact Hin).
+        apply in_map_iff in Hk' as ([k' v'] & E & Hin'). cbn in E. subst k'.
+        rewrite (nodup_keys_functional o_s k v v' Ns Hin (Hsub _ Hin')). assumption.
+      - intros Hsame.
+        assert (P : Permutation (map fst o_s) (map fst o_t)).
+        { apply NoDup_Permutation; [assumption | assumption|]. intros k. split; intros H;
+            apply in_map_iff in H as ([k' v] & E & Hin); cbn in E; subst k';
+            [apply Hsame in Hin | apply Hsame in Hin]; apply (in_map fst) in Hin; exact Hin. }
+        assert (zs = zt) as <-.
+        { rewrite (isort_perm_eq _ _ P) in Es. congruence. }
+        rewrite Z.eqb_refl. cbn [app].
+        rewrite (subset_compile_nil o_s o_t Ns (fun kv H => proj2 (Hsame kv) H)). reflexivity.
+    Qed.
+
+    (* in a tree without the fingerprint the complete diagnostics are the per-option ones *)
+    Lemma compile_full_without_keyset o_s o_t :
+      sd_keyset typ = None -> compile_full sav sup typ o_s o_t = compile sav sup typ o_s o_t.
+    Proof.
+      intros K. unfold compile_full, keyset_diags. rewrite K. destruct (compile sav sup typ o_s o_t); reflexivity.
+    Qed.
   End Sides.
 End Generic.
 
@@ -393,5 +564,52 @@ Lemma omit_cpp_no_asserts o : compile_omit sav cpp_type_side o = Some [].
 Proof. reflexivity. Qed.
 Lemma omit_unguarded_all_undeclared typ o :
   sd_unless_omit typ = false ->
-  compile_omit sav typ o = option_map (map (fun a => Undeclared (snd (fst a)))) (rendered sav typ o).
+  compile_omit sav typ o
+  = option_map (fun t => (match sd_keyset typ with Some _ => [KeySetUndeclared] | None => [] end)
+                         ++ map (fun a => Undeclared (snd (fst a))) t) (rendered sav typ o).
 Proof. intros H. unfold compile_omit. rewrite H. destruct (rendered sav typ o); reflexivity. Qed.
+
+(* ---- key-set fingerprint: instances ---- *)
+Lemma c_keysets_ok : keysets_ok sav c_keysets = true.
+Proof. vm_compute. reflexivity. Qed.
+Lemma cpp_keysets_ok : keysets_ok sav cpp_keysets = true.
+Proof. vm_compute. reflexivity. Qed.
+
+(* the defaults (and C defaults + std) have documented key sets *)
+Lemma default_keys_documented :
+  keys_documentedb c_keysets c_defaults = true /\ keys_documentedb c_keysets (set_key k_std v_c11 c_defaults) = true /\
+  keys_documentedb cpp_keysets cpp_defaults = true.
+Proof. vm_compute. repeat split; reflexivity. Qed.
+
+(* the reserved key-set symbol is not the symbol of any documented option *)
+Definition keyset_symbol_free (sd : side) (symbols : list str) : bool :=
+  match sd_keyset sd with Some n => negb (str_in n symbols) | None => true end.
+Lemma keyset_symbols_free :
+  keyset_symbol_free c_support_side c_symbols = true /\ keyset_symbol_free c_type_side c_symbols = true /\
+  keyset_symbol_free cpp_support_side cpp_symbols = true /\ keyset_symbol_free cpp_type_side cpp_symbols = true.
+Proof. vm_compute. repeat split; reflexivity. Qed.
+
+(* either both templates of a language carry the fingerprint or neither does *)
+Lemma keyset_consistent :
+  (keyset_guarded c_support_side c_type_side || keyset_absent c_support_side c_type_side = true) /\
+  (keyset_guarded cpp_support_side cpp_type_side || keyset_absent cpp_support_side cpp_type_side = true).
+Proof. vm_compute. split; reflexivity. Qed.
+
+(* without the fingerprint the full statement is refuted (F-OPTGUARD-KEYSET) *)
+Lemma full_refuted_without_keyset :
+  sd_keyset c_type_side = None ->
+  exists o_s o_t : opts,
+    in_domainb c_domain o_s = true /\ in_domainb c_domain o_t = true /\
+    keys_documentedb c_keysets o_s = true /\ keys_documentedb c_keysets o_t = true /\
+    compiles_together_full sav c_support_side c_type_side o_s o_t = true /\ ~ (forall kv, In kv o_s <-> In kv o_t).
+Proof.
+  intros K. exists (set_key k_std v_c11 c_defaults), c_defaults.
+  destruct extra_support_key_accepted as (D1 & D2 & Hc & _).
+  destruct default_keys_documented as (K2 & K1 & _).
+  split; [exact D1|]. split; [exact D2|]. split; [exact K1|]. split; [exact K2|]. split.
+  - unfold compiles_together_full. rewrite (compile_full_without_keyset sav c_support_side c_type_side _ _ K).
+    exact Hc.
+  - intros H. assert (Hin : In (k_std, v_c11) c_defaults) by (apply H; unfold set_key; apply in_or_app; right; left; reflexivity).
+    revert Hin. clear. intros Hin. apply (in_map fst) in Hin. cbn [fst] in Hin.
+    apply str_in_spec in Hin. vm_compute in Hin. discriminate.
+Qed.
